@@ -12,7 +12,7 @@ def run_paths():
     outp = os.path.join(V.WORK, "c18_paths.out")
     if os.path.exists(outp):
         os.remove(outp)
-    rc, out = V.go_test("proto/compat", ["zz_verif_repair_paths_test.go"], "^TestVerifRepairPaths$", env={"VERIF_OUT": outp}, timeout=900)
+    rc, out = V.go_test("proto/compat", ["zz_verif_repair_paths_test.go", "zz_verif_codec_test.go"], "^TestVerifRepairPaths$", env={"VERIF_OUT": outp}, timeout=900)
     if rc != 0 or not os.path.exists(outp):
         return "repair path harness failed:\n" + out[-3000:], [], {}
     lines = [l for l in open(outp).read().split("\n") if l]
